@@ -40,9 +40,9 @@ Shapes ==
   [kind : {"v1_ram", "v1_enc"}, app : AppLens, tzType : {0, 1, 2}, ks : BOOLEAN, depth : Depths, kb : KeyBytes,
    nKeys : {0}, used : {0}, curve : {0}, isk : {0}, ud : {0}, dig : {FALSE}]
   \cup
-  { sh \in [kind : {"v21_dig", "v21_crc"}, app : AppLens, tzType : {0, 1}, ks : {FALSE}, depth : {0}, kb : {0},
+  { sh \in [kind : {"v21_dig", "v21_crc"}, app : (IF Full THEN AppLens ELSE {300}), tzType : {0, 1}, ks : {FALSE}, depth : {0}, kb : {0},
             nKeys : (IF Full THEN 1..4 ELSE {1, 3}), used : 0..3, curve : {32, 48}, isk : {0, 64, 96}, ud : UdLens, dig : BOOLEAN] :
-      /\ sh.used < sh.nKeys /\ (sh.isk = 0 => sh.ud = 0) /\ sh.isk <= 2 * sh.curve
+      /\ sh.used < sh.nKeys /\ (Full \/ sh.used \in {0, sh.nKeys - 1}) /\ (sh.isk = 0 => sh.ud = 0) /\ sh.isk <= 2 * sh.curve
       /\ (sh.kind = "v21_crc" => ~sh.dig) }
 
 (* ---- the documented layout: regions [n, a, b) of the image of a shape *)
